@@ -138,3 +138,27 @@ Example C17_parseTXT_example :
   parseTXT [[116;120;116;118;101;114;115;61;49]; [77;111;100;101;108;61;97;61;98]; [109;100;61;120]] = [97;61;98].
 Proof. exact parseTXT_example. Qed.
 Print Assumptions C17_parseTXT_example.
+
+(* Name spelling across a history.  The table key is the exact octet string of the question name
+   (Spec: table_key; RFC 4343 case-insensitivity is a comparison rule of the DNS, dnsmessage compares
+   names byte-wise): another spelling is another entry, and a response about one spelling never
+   touches the entry of another spelling or of any other name.  Together with
+   C17_history_keeps_records (which holds for every name, whatever its octets): records learned under
+   a spelling stay under that spelling through any history. *)
+Theorem C17_table_key_exact : forall k k' c t, table_key k <> table_key k' -> tfind k (tput k' c t) = tfind k t.
+Proof. exact tfind_tput_other. Qed.
+Print Assumptions C17_table_key_exact.
+
+Theorem C17_other_spelling_untouched : forall t p name q index,
+  decodeQuestion p 12 {| arr := repeat 0 64; len := 0 |} = Ok (q, index) -> q_name q <> name ->
+  tbl_find name (snd (processDNS t p)) = tbl_find name t.
+Proof. exact other_spelling_untouched. Qed.
+Print Assumptions C17_other_spelling_untouched.
+
+Example C17_spelling_history_example :
+  let msg (n : N) (ip : N) := of_bytes ([0;1;129;128; 0;1; 0;1; 0;0; 0;0] ++ [1; n; 0; 0;1; 0;1] ++
+                                        [192;12; 0;1; 0;1; 0;0;0;60; 0;4; 10;0;0;ip]) in
+  let t := run_dns [] [msg 88 1; msg 120 2; msg 88 3] in
+  map (fun e => (de_name e, List.length (de_ip4 e))) t = [([88], 2%nat); ([120], 1%nat)].
+Proof. exact spelling_history_example. Qed.
+Print Assumptions C17_spelling_history_example.
